@@ -182,10 +182,13 @@ def run(repo: Repo, chk: Check) -> None:
             rets = [p for p in res if p.outcome == 'return']
             npush = len(case['out'])
             bad = []
+            want_heads = [parse_type(o)[0] for o in case['out']]
             for p in rets:
                 st = p.value['stack']
                 if len(st) != npush + 2 or st[npush:] != sent or p.value['protected'] != 0:
                     bad.append([tstr(vtype(x)) for x in st])
+                elif npush > 1 and [vtype(x)[0] for x in st[:npush]] != want_heads:
+                    bad.append([tstr(vtype(x)) for x in st])  # results pushed in the wrong order
             what_in = ' : '.join(case['in']) or '(nothing)'
             chk.ob('R-PATH', q, bool(rets) and not bad, f'{row["prim"]} on {what_in}: pops {len(case["in"])}, pushes {npush}, rest of the stack untouched',
                    repo.classes[q].loc, {'normal_paths': len(rets), 'failing_paths': len(res) - len(rets), 'bad_stacks': bad[:2]},
@@ -345,6 +348,19 @@ def _fallbacks(repo: Repo, chk: Check) -> None:
                                 sources |= {'TypeError', 'ValueError'}
                             else:
                                 sources.add('*')
+            type_cmp = [d for d in detail if d.startswith('assert_type_') and 'ErrorTrace-wrapped' in d]
+            handled = set()
+            for h in tr.handlers:
+                if h.type is None:
+                    handled.add('BaseException')
+                else:
+                    handled |= {getattr(e, 'id', getattr(e, 'attr', '?')) for e in (h.type.elts if isinstance(h.type, ast.Tuple) else [h.type])}
+            if type_cmp:
+                chk.ob('R-EXC', fi.qualname, bool(handled & {MRE, 'Exception', 'BaseException'}),
+                       f'the try block at line {tr.lineno - fi.node.lineno} compares types: its handlers catch MichelsonRuntimeError', f'{fi.module.relpath}:{tr.lineno}',
+                       {'handled': sorted(handled), 'type_comparisons': type_cmp},
+                       what=f'{fi.qualname}: the guarded type comparison ({type_cmp[0]}) raises MichelsonRuntimeError, but the handlers only catch {sorted(handled)}: '
+                            f'a type mismatch aborts execution instead of producing the fallback value')
             for h in tr.handlers:
                 names = []
                 if h.type is None:
